@@ -32,6 +32,12 @@ def hwOk (T f1 s2 : Nat) (un : Option (Nat × Nat)) (c : Nat) : Bool :=
   | none => decide (T - s2 ≤ c) && decide (c ≤ T - f1)
   | some (uf, us) => decide (uf - s2 ≤ c) && decide (c ≤ us - f1)
 
+/-- `hc`: `g` goroutines × `k` concurrent `Hook` calls × `rounds`, one Trigger per round afterwards:
+every hook was attached before its Trigger began and is never unhooked, so it is invoked exactly once
+(`calls` invocations of `distinct` hooks, none twice). -/
+def hcOk (g k rounds calls distinct twice : Nat) : Bool :=
+  calls == g * k * rounds && distinct == g * k * rounds && twice == 0
+
 open Hive.Proto
 
 def natsOf (ts : List String) : Option (List Nat) := ts.mapM (·.toNat?)
@@ -55,6 +61,13 @@ def checkPT (toks : List String) : String :=
   match natsOf a, natsOf b with
   | some [_, _, _, _], some [truesBad, keep0, _keep1, keepN, _early0, earlyN, _racy0, _racy1, racyN, badarg] =>
     verdict (ptOk truesBad keep0 keepN earlyN racyN badarg) "callback-not-exactly-once"
+  | _, _ => "bad-op"
+
+def checkHC (toks : List String) : String :=
+  let (a, b) := splitArrow toks
+  match natsOf a, natsOf b with
+  | some [g, k, rounds], some [calls, distinct, twice] =>
+    verdict (hcOk g k rounds calls distinct twice) "hook-not-invoked-exactly-once"
   | _, _ => "bad-op"
 
 def parseHook (t : String) : Option (Nat × Nat × Option (Nat × Nat) × Nat) :=
